@@ -1,0 +1,10 @@
+//go:build verif
+
+package cbc
+
+// Contracts for the goblvc verifier (see /verif/DESIGN.md). Comments only.
+//
+//@ pred keyAmong(k Key, set []Key) bool = exists i int :: 0 <= i && i < len(set) && set[i] == k
+//@ func (k Key) In(set) (r)
+//@   ensures r <==> keyAmong(k, set)
+//@   loop 1 invariant forall j int :: 0 <= j && j < idx ==> set[j] != k
